@@ -200,3 +200,23 @@ prop("C19",
      trusted_base=["tools/goextract: keepalive expression", "Go timers / read deadlines"],
      assumptions=["the reader re-arms the deadline once per processed packet", "time is measured on the client side from the completion of its write"],
 )
+
+prop("C12",
+     coq=["model/Framing.v", "proofs/FramingProofs.v", "chk/C12chk.v", "props/C12.v", "refute/C12.v"],
+     n={"quick": 300, "thorough": 8000, "search": 1200},
+     shrink_fields=["pkts", "chunks"],
+     rule="60% 'seg': CONNECT + 1-7 packets that each elicit exactly one response (PINGREQ, SUBSCRIBE, PUBLISH qos1, UNSUBSCRIBE) written in segments: one byte at a time / all at once / packet boundaries / "
+          "CONNECT together with the next packet / 1-5 random chunk sizes cycled; the model reads the same bytes with the same chunking and must recover the packets, the independent splitter parse_all too, "
+          "and the broker must answer every packet in order. 20% 'hostile': valid prefix then flipped bytes / truncation / arbitrary bytes, in random segments: bystander still served (fuzz support, labelled so). "
+          "10% 'oversize': header announcing 100-200 MB against a 1-64 KB maximum: connection closed and process allocation (runtime.MemStats TotalAlloc delta) below half the announced size. "
+          "10% 'outbound': v5 client announcing Maximum Packet Size 40-240, 12 publishes with payloads around that size (some with expiry): largest packet received <= maximum and the small ones all arrive. "
+          "non-trivial = seg with at least one packet after CONNECT or any other kind; distinct by case JSON.",
+     level_text="Theorems (coq/props/C12.v) over the executable model of reader.readPacket on a buffered reader fed by an adversarial read-size oracle: for EVERY byte string, EVERY two oracles and EVERY split "
+                "between buffered and unread bytes the extracted packet sequence / rejection is the same (segmentation independence, CONNECT and what follows it included: one reader for the whole connection); "
+                "every allocation the reader makes is bounded by the configured maximum and none is made for a packet rejected as too large; a remaining-length field of more than 4 bytes is a protocol error. "
+                "refute/C12.v: the two-reader shape before the repair depends on segmentation. Partial: absence of panics/hangs inside the external codec for arbitrary bytes is NOT proved (hostile streams are fuzz support); "
+                "outbound packet sizes are checked at the client, the size function itself is the codec's.",
+     level_note="Trusted: Coq kernel + vm_compute; hand translation of readPacket and of bufio.Reader Peek/Read as (buffered, unread) with chunked fills; vlapi codec; runtime.MemStats for the allocation bound.",
+     trusted_base=["bufio.Reader semantics", "vlapi/mqttp codec", "runtime.MemStats"],
+     assumptions=["bufio's direct-read optimisation and finite buffer size are abstracted (they change chunking only, which the theorem quantifies over)"],
+)
